@@ -143,11 +143,19 @@ def main():
         routes = getattr(mod, 'ROUTES', None)
         if isinstance(routes, dict):
             for key, r in routes.items():
+                # a route object that lacks one of its documented fields is a finding for the parent to
+                # report, not a reason for this observer to crash
+                def field(attr, conv=lambda x: x):
+                    try:
+                        return conv(getattr(r, attr))
+                    except Exception as e:
+                        return '<unreadable: %s>' % type(e).__name__
                 md['routes'][key] = {
-                    'name': r.name, 'version': r.version, 'deprecated': r.deprecated,
-                    'arg': describe_validator(r.arg_type, bv), 'result': describe_validator(r.result_type, bv),
-                    'error': describe_validator(r.error_type, bv),
-                    'attrs': {k: repr(v) for k, v in r.attrs.items()},
+                    'name': field('name'), 'version': field('version'), 'deprecated': field('deprecated'),
+                    'arg': field('arg_type', lambda v: describe_validator(v, bv)),
+                    'result': field('result_type', lambda v: describe_validator(v, bv)),
+                    'error': field('error_type', lambda v: describe_validator(v, bv)),
+                    'attrs': field('attrs', lambda a: {k: repr(v) for k, v in a.items()}),
                     'is_module_attr': any(getattr(mod, n, None) is r for n in dir(mod)),
                 }
         else:
